@@ -360,7 +360,6 @@ func ruleC09ThunkArms(c *Ctx) {
 	}
 }
 
-
 func init() {
 	register("C07", ruleThunkTypeAgree)
 	register("C08", ruleThunkTypeAgree)
@@ -1117,7 +1116,6 @@ func ruleC09PipeString(c *Ctx) {
 	}
 	c.Check(len(why) == 0, "c09.pipe-string", "Reader/{k|string}", c.P.Pos(f.Pos()), "NULL stays NULL; numbers through FormatFloat('f', -1)", strings.Join(uniq(why), "; "))
 }
-
 
 // a parse that an evaluation can change makes the next evaluation of the same query differ (C12)
 func init() { register("C12", ruleC09ParsedImmutable) }
